@@ -27,9 +27,13 @@ ObsStart == Has /\ Ev.e = "start" /\ Call(Ev.g, Ev.k) /\ l' = l + 1
 ObsUpq == /\ Has /\ Ev.e = "upq" /\ up = Ev.up /\ gen[Ev.k] = Ev.gen
           /\ \E g \in Gs : key[g] = Ev.k /\ Fetch(g)
           /\ l' = l + 1
+\* (A Resolve call is several lookups - HTTPS, A, AAAA, the targets' addresses - and the trace follows the one on the key under
+\*  test. A caller whose context has ended may see its Resolve fail in any of the others after this one has finished: such an
+\*  end says nothing about the data and leaves the entry as it is.)
 ObsEnd == /\ Has /\ Ev.e = "end"
-          /\ Return(Ev.g) /\ got[Ev.g].kind = Ev.kind
-          /\ (Ev.gen >= 0 => got[Ev.g].gen = Ev.gen)
+          /\ Return(Ev.g)
+          /\ \/ got[Ev.g].kind = Ev.kind /\ (Ev.gen >= 0 => got[Ev.g].gen = Ev.gen)
+             \/ Ev.kind = "timeout" /\ cancelled[Ev.g]
           /\ l' = l + 1
 \* the end of a caller's context, logged before it takes effect (a lookup that has already returned is not affected)
 ObsCancel == /\ Has /\ Ev.e = "cancel"
